@@ -72,8 +72,7 @@ CLAIMS = {
              "watertight meshes (box complexes incl. concave / nested, polytopes; integer poses); IN/OUT pruning of TreeNeuron / Dotprops / "
              "MeshNeuron; dict/list of volumes; intersection_matrix; all snap variants.",
         note="The ray caster (ncollpyde) is external: its agreement with exact membership is TESTED, not proved; pyoctree is not installed; snap "
-             "compared on unique nearest neighbours only; mesh generation and trimesh watertightness checks are trusted harness code. Three open "
-             "findings (MeshNeuron.snap(to='connectors'); straddling faces lose vertices; stale vertex_id).",
+             "compared on unique nearest neighbours only; mesh generation and trimesh watertightness checks are trusted harness code.",
         technique="Lean 4 proof (IN/OUT partition for any inside test, CSG membership, argmin) + exact correspondence on watertight meshes",
         ref="§5 C18"),
     'C03': dict(
